@@ -172,6 +172,14 @@ Definition short_match (s : str) : option (str * str * N * str * nat) :=
         end
   end.
 
+(* re.fullmatch of the same pattern (fix 0a78c77): the groups of the match at the start of s, provided
+   it consumes the whole string — no other decomposition can (the runs contain no sign) *)
+Definition short_fullmatch (s : str) : option (str * str * N * str) :=
+  match short_match s with
+  | Some (g1, g2, g3, g4, k) => if Nat.eqb k (length s) then Some (g1, g2, g3, g4) else None
+  | None => None
+  end.
+
 Definition replace_d (s : str) : str := map (fun c => if is_expmark_d c then c_e else c) s.
 
 (* None = ValueError *)
@@ -180,8 +188,8 @@ Definition convert (s : str) : option Q :=
   | Some q => Some q
   | None =>
       if str_eqb s [c_plus] || str_eqb s [c_minus] then Some (0 # 1)
-      else match short_match s with
-           | Some (g1, g2, g3, g4, _) =>
+      else match short_fullmatch s with
+           | Some (g1, g2, g3, g4) =>
                let msign := if str_eqb g1 [c_minus] then [c_minus] else [] in
                pyfloat (msign ++ g2 ++ [c_E] ++ [g3] ++ g4)      (* a failure here is final *)
            | None =>
@@ -226,30 +234,23 @@ Definition comment_line (ic : N) (l : str) : bool :=
     end
   else match l with c :: _ => N.eqb c ic | [] => false end.
 
-(* '[' + c + ']' is not a character class for these two *)
-Definition regex_unsafe (ic : N) : bool := N.eqb ic c_caret || N.eqb ic c_bslash.
-
 Fixpoint has_space_tab (s : str) : bool :=
   match s with
   | a :: ((b :: _) as tl) => (N.eqb a c_sp && N.eqb b c_tab) || has_space_tab tl
   | _ => false
   end.
 
-(* re.search(r'^[ \t]*\n$', contents, re.MULTILINE): a blank terminated line that is followed by
-   the end of the text or by an EMPTY line ('$' after the newline) *)
-Fixpoint blank_error (ls : list str) (t : str) : bool :=
-  match ls with
-  | [] => false
-  | l :: rest =>
-      (forallb is_blankc l && is_nil (match rest with nx :: _ => nx | [] => t end)) || blank_error rest t
-  end.
+(* re.search(r'^[ \t]*\n|^[ \t]+\Z', contents, re.MULTILINE) (fix f9c38b4): a blank terminated line, or a
+   non-empty blank unterminated last line *)
+Definition blank_error (ls : list str) (t : str) : bool :=
+  existsb (forallb is_blankc) ls || (negb (is_nil t) && forallb is_blankc t).
 
-(* the prefiltered text, kept as (terminated lines, tail); the comment regex needs the newline, so
-   the tail is never removed *)
+(* the prefiltered text, kept as (terminated lines, tail).  The comment patterns end in (?:\n|\Z) and the
+   IGNORE character is escaped (fix 8a96a4a): a comment on the unterminated last line is removed too *)
 Definition prefilter (ic : N) (s : str) : res (list str * str) :=
-  if regex_unsafe ic then Err OtherErr else
-  let (ls, t) := lines_tail s in
+  let (ls, t0) := lines_tail s in
   let kept := filter (fun l => negb (comment_line ic l)) ls in
+  let t := if comment_line ic t0 then [] else t0 in
   if existsb has_space_tab (kept ++ [t]) then Err DatasetError
   else if blank_error kept t then Err DatasetError
   else Ok (kept, t).
@@ -304,15 +305,14 @@ Definition raw_rows (p : list str * str) : list (list str) :=
 Definition shape (w : nat) (r : list str) : list (option str) :=
   firstn w (map Some r ++ repeat None w).
 
-(* column naming in read_nonmem_dataset (raw=False).  With pandas 3 `df.columns = names + [None]`
-   turns None into NaN and `df.drop(columns=[None])` raises KeyError. *)
-Definition frame (n : nat) (nullstr : str) (rows : list (list str)) : res (list (list (option str))) :=
+(* column naming in read_nonmem_dataset (raw=False): surplus columns are cut by position (fix c9e4304),
+   missing columns are padded with None — NULL is inserted after the filters (fix 6a54a3e) *)
+Definition frame (n : nat) (rows : list (list str)) : res (list (list (option str))) :=
   match rows with
   | [] => Err EmptyData
   | r0 :: _ =>
       let w := length r0 in
-      if n <? w then Err KeyErr
-      else Ok (map (fun r => shape w r ++ repeat (Some nullstr) (n - w)) rows)
+      Ok (map (fun r => firstn n (shape w r) ++ repeat None (n - w)) rows)
   end.
 
 (* =================================================================================================
@@ -717,7 +717,7 @@ Definition read_model (i : input) : res (list (str * list cell)) :=
   bind (null_string (i_null i)) (fun nullstr =>
   if negb (nodup_s (kept_names names drops)) then Err KeyErr else
   bind (prefilter (ign_char (i_ignchar i)) (i_text i)) (fun p =>
-  bind (frame (length names) nullstr (raw_rows p)) (fun fr =>
+  bind (frame (length names) (raw_rows p)) (fun fr =>
   bind (filter_ignore_accept names (ci_syn ci) nullstr (i_mdt i) (i_ignore i) (i_accept i) fr) (fun fr' =>
   bind (mapM (convert_row nullstr (i_mdt i) (map (fun nd => parse_col (fst nd) (snd nd)) (combine names drops))) fr')
        (fun rows =>
